@@ -147,6 +147,9 @@ pub struct SkeskCase {
     pub hash: u8,
     pub count: u8,
     pub pwlen: usize,
+    /// v4 only: the cipher of the session key carried inside (0 = the SKESK's own cipher)
+    #[serde(default)]
+    pub inner: u8,
 }
 
 fn parse_one(tag: u8, body: &[u8]) -> Result<Packet, String> {
@@ -160,6 +163,31 @@ fn parse_one(tag: u8, body: &[u8]) -> Result<Packet, String> {
 
 fn run_skesk(c: &SkeskCase) -> Outcome {
     let (_, ks) = cm::sym_params(c.sym).expect("cipher");
+    if c.inner != 0 && !c.v6 {
+        // RFC 9580 5.3.1: the encrypted session key names its own cipher, which need not be the
+        // one that protects it
+        let (_, iks) = cm::sym_params(c.inner).expect("cipher");
+        let session: Vec<u8> = (0..iks).map(|i| (i as u8).wrapping_mul(29).wrapping_add(3)).collect();
+        let pw = password(c.pwlen);
+        let s = s2k_of(&S2kCase { typ: c.s2k_typ, hash: c.hash, count: c.count, t: 1, p: 1, m_enc: 4, size: ks, pwlen: c.pwlen });
+        let body = kdf::skesk_v4(c.sym, &s, &pw, Some((c.inner, &session)));
+        let mut o = Outcome::ok("foreign-inner-cipher:opened");
+        match parse_one(3, &body) {
+            Ok(Packet::SymKeyEncryptedSessionKey(p)) => match p
+                .s2k()
+                .ok_or_else(|| pgp::errors::Error::from(std::io::Error::other("no s2k")))
+                .and_then(|k| k.derive_key(&pw, ks))
+                .and_then(|k| p.decrypt(k))
+            {
+                Ok(PlainSessionKey::V3_4 { ref key, ref sym_alg }) if key.as_ref() == &session[..] && u8::from(*sym_alg) == c.inner => {}
+                Ok(ref other) => o.push("C12:skesk-v4:library-decrypts-model-packet-to-other-key", format!("{c:?}: {other:?}")),
+                Err(e) => o.push("C12:skesk-v4:library-cannot-open-model-packet", format!("{c:?} (session key of cipher {} inside a SKESK of cipher {}): {e}", c.inner, c.sym)),
+            },
+            Ok(_) => o.push("C12:skesk-v4:model-packet-parsed-as-other-type", format!("{c:?}")),
+            Err(e) => o.push("C12:skesk-v4:library-cannot-parse-model-packet", format!("{c:?}: {e}")),
+        }
+        return o;
+    }
     let session: Vec<u8> = (0..ks).map(|i| (i as u8).wrapping_mul(29).wrapping_add(3)).collect();
     let pw = password(c.pwlen);
     let s = s2k_of(&S2kCase {
@@ -794,7 +822,15 @@ pub fn check(ctx: &Ctx) {
     for sym in CFB_CIPHERS {
         for (s2k_typ, hash, count) in [(1u8, 8u8, 0u8), (3, 8, 0), (3, 10, 96), (3, 2, 16), (1, 3, 0), (4, 0, 0), (3, 11, 5)] {
             for pwlen in [0usize, 9, 70] {
-                kc.push(SkeskCase { v6: false, sym, aead: 0, s2k_typ, hash, count, pwlen });
+                kc.push(SkeskCase { v6: false, sym, aead: 0, s2k_typ, hash, count, pwlen, inner: 0 });
+            }
+        }
+    }
+    // v4: every cipher protecting a session key of every other cipher
+    for sym in CFB_CIPHERS {
+        for inner in CFB_CIPHERS {
+            if inner != sym {
+                kc.push(SkeskCase { v6: false, sym, aead: 0, s2k_typ: 3, hash: 8, count: 0, pwlen: 9, inner });
             }
         }
     }
@@ -802,7 +838,7 @@ pub fn check(ctx: &Ctx) {
         for aead in [1u8, 2, 3] {
             for (s2k_typ, hash, count) in [(1u8, 8u8, 0u8), (3, 8, 0), (3, 10, 96), (4, 0, 0), (3, 12, 3)] {
                 for pwlen in [0usize, 9, 70] {
-                    kc.push(SkeskCase { v6: true, sym, aead, s2k_typ, hash, count, pwlen });
+                    kc.push(SkeskCase { v6: true, sym, aead, s2k_typ, hash, count, pwlen, inner: 0 });
                 }
             }
         }
@@ -810,7 +846,7 @@ pub fn check(ctx: &Ctx) {
     ctx.run_space(
         "skesk",
         true,
-        "SKESK v4 (11 ciphers) and v6 (3 ciphers x 3 AEAD modes) x S2K {salted, iterated (several hashes/counts incl. SHA-1/RIPEMD for reading), Argon2} x password lengths {0,9,70}: model-built packet parsed and decrypted by the library; library-built packet opened by the model (v4 also byte-identical)",
+        "SKESK v4 (11 ciphers; plus every cipher protecting a session key of every other cipher, 110 pairs) and v6 (3 ciphers x 3 AEAD modes) x S2K {salted, iterated (several hashes/counts incl. SHA-1/RIPEMD for reading), Argon2} x password lengths {0,9,70}: model-built packet parsed and decrypted by the library; library-built packet opened by the model (v4 also byte-identical)",
         kc.into_par_iter(),
         run_skesk,
     );
